@@ -14,7 +14,7 @@
 #include "cstl/vector.h"
 
 #define MAXV 4
-#define MAXPRINT 64
+#define MAXPRINT 256
 #define POISON 190
 #define CTORV 193
 
